@@ -15,7 +15,7 @@ RULE = ("grids (algorithm, N) for cube4D and randomQ; quick N in {4..16,20,24,40
         "getters are called (in varying order) and every pair (i,j) is judged against all faces of the 2N-point double cover (exact all-pairs "
         "oracle). Non-trivial = grid with at least one pair adjacent only through the antipodal copy; distinct by (algorithm, N)")
 ASSUMPTIONS = ["faces with oracle area in [1e-13, 1e-8] are ambiguous (not judged); two-face contacts: border not judged (unspecified)",
-               "border tolerance 1e-5 absolute (observed agreement <= 1e-9), distances 1e-9, symmetry 1e-8 (absolute and relative; mirror faces are computed separately and differ by ~3e-10)",
+               "border tolerance 2e-8 + 1e-6*area (observed agreement <= 7e-9 on every grid of the thorough sweep), distances 1e-9, symmetry 1e-8 (absolute and relative; mirror faces are computed separately and differ by ~3e-10)",
                "oracle validated per run against Monte-Carlo on sampled faces (oracle self-test counters in the evidence)"]
 EXHAUSTIVE = {"quick": False, "thorough": False}
 MIN_NONTRIVIAL = {"quick": 20, "thorough": 150}
@@ -33,7 +33,7 @@ def drive(F4, alg, N, order=0, selftest=False):
         calls = calls[order % 3:] + calls[:order % 3]
         from vlib.rec import call_and_hold
         before = sum(REC.monitors[m]["calls"] + REC.monitors[m]["skipped"] for m in DECIDING)
-        results = call_and_hold(calls, "C04.returned_object_stable")
+        results = call_and_hold(calls, "C04.returned_object_stable", hostile_caller=(order % 2 == 0))
         G = np.asarray(g.get_grid_as_array(only_upper=True), dtype=float)
         if sum(REC.monitors[m]["calls"] + REC.monitors[m]["skipped"] for m in DECIDING) == before and N >= 4:
             # the class-level monitors did not fire (the grid is served by another cell model): the property speaks about every rotation
@@ -75,6 +75,24 @@ def oracle_selftest(G, direct, anti, N):
             REC.harness_problem("C04 oracle disagrees with Monte-Carlo", {"pair": [int(i), int(j)], "oracle": a, "mc": m, "se": se})
 
 
+def drive_consumers(F4):
+    """history: a single-position full grid hands the rotation matrices to the package's own in-place consumer (get_full_prefactors);
+    afterwards the rotation grid's getters are asked again under the monitors"""
+    from molgri.space.fullgrid import FullGrid
+    for b in ("randomQ_8", "cube4D_9"):
+        REC.begin_case({"kind": "matrices after their consumers", "b": b}, cls="matrices after their consumers")
+        try:
+            fg = FullGrid(b, "1", "[0.3]", factor=2)
+            fg.get_full_prefactors()
+            fg.get_full_borders()
+            fg.get_full_prefactors()
+            g = fg.b_rotations
+            g.get_cell_borders(); g.get_center_distances(); g.get_voronoi_adjacency()
+            REC.nontrivial_case(("consumers", b))
+        except Exception as e:
+            REC.crashed("C04.call_raised", e)
+
+
 def shards(tier, seed):
     Ns = QUICK_N if tier == "quick" else THOROUGH_N
     jobs = [(alg, N) for alg in ("cube4D", "randomQ") for N in Ns]
@@ -88,7 +106,9 @@ def shards(tier, seed):
         k = load.index(min(load))
         buckets[k].append([alg, N])
         load[k] += N ** 3 + 50 * N ** 2 + 20000
-    return [{"jobs": b} for b in buckets if b]
+    out = [{"jobs": b} for b in buckets if b]
+    out[-1]["consumers"] = True
+    return out
 
 
 def run_shard(spec):
@@ -96,6 +116,8 @@ def run_shard(spec):
     geom4.install()
     from vlib.props import c07
     c07.install()
+    if spec.get("consumers"):
+        drive_consumers(SphereGrid4DFactory)
     for k, (alg, N) in enumerate(spec["jobs"]):
         drive(SphereGrid4DFactory, alg, N, order=k + spec.get("seed", 0), selftest=(N in (8, 12, 20, 40, 60, 100) or k == 0))
 
